@@ -8,6 +8,9 @@
 typedef HexahedralMeshTopologyKernel HexK;
 
 // --------------------------------------------------------------------------- snapshot (capacity: 2x2 sheet = 18V 33E 20F 4C)
+// Helpers that loop are noinline on purpose: CBMC counts loop iterations per call frame, and ll2c's goto-structured
+// loops do not always reset the count on loop exit, so inlined helper loops would accumulate iterations across calls.
+#define HS_FN static __attribute__((noinline))
 enum { HXV = 18, HXE = 34, HXF = 21, HXFV = 5, HXC = 4, HXCV = 7 };
 struct HSnap {
   int nV, nE, nF, nC;
@@ -15,15 +18,21 @@ struct HSnap {
   int efrom[HXE], eto[HXE]; bool edel[HXE];
   int fval[HXF]; int fhe[HXF][HXFV]; bool fdel[HXF];
   int cval[HXC]; int chf[HXC][HXCV]; bool cdel[HXC];
+  int inc[2 * HXF];     // derived: the live cell listing the halfface; -1 none, -2 several
   bool overflow;
 };
 
-static void hs_take(const TopologyKernel &m, HSnap &s) {
-  s.overflow = false;
-  s.nV = (int)m.n_vertices(); s.nE = (int)m.n_edges(); s.nF = (int)m.n_faces(); s.nC = (int)m.n_cells();
-  if (s.nV > HXV || s.nE > HXE || s.nF > HXF || s.nC > HXC) { s.overflow = true; return; }
-  for (int i = 0; i < s.nV; ++i) s.vdel[i] = m.is_deleted(VH(i));
-  for (int i = 0; i < s.nE; ++i) { s.efrom[i] = m.edge(EH(i)).from_vertex().idx(); s.eto[i] = m.edge(EH(i)).to_vertex().idx(); s.edel[i] = m.is_deleted(EH(i)); }
+HS_FN int hs_pos_in_cell(const HSnap &s, int c, int hfh) {   // index of hfh in the cell's list, -1 if absent
+  int r = -1;
+  for (int k = HXCV - 1; k >= 0; --k) if (k < s.cval[c] && s.chf[c][k] == hfh) r = k;
+  return r;
+}
+HS_FN int hs_incident_cell_scan(const HSnap &s, int hfh) {
+  int r = -1;
+  for (int c = 0; c < HXC; ++c) if (c < s.nC && !s.cdel[c] && hs_pos_in_cell(s, c, hfh) >= 0) r = (r == -1) ? c : -2;
+  return r;
+}
+HS_FN void hs_take_faces(const TopologyKernel &m, HSnap &s) {
   for (int i = 0; i < s.nF; ++i) {
     const std::vector<HEH> &hes = m.face(FH(i)).halfedges();
     s.fval[i] = (int)hes.size();
@@ -31,6 +40,8 @@ static void hs_take(const TopologyKernel &m, HSnap &s) {
     for (int k = 0; k < s.fval[i]; ++k) s.fhe[i][k] = hes[(size_t)k].idx();
     s.fdel[i] = m.is_deleted(FH(i));
   }
+}
+HS_FN void hs_take_cells(const TopologyKernel &m, HSnap &s) {
   for (int i = 0; i < s.nC; ++i) {
     const std::vector<HFH> &hfs = m.cell(CH(i)).halffaces();
     s.cval[i] = (int)hfs.size();
@@ -38,6 +49,18 @@ static void hs_take(const TopologyKernel &m, HSnap &s) {
     for (int k = 0; k < s.cval[i]; ++k) s.chf[i][k] = hfs[(size_t)k].idx();
     s.cdel[i] = m.is_deleted(CH(i));
   }
+}
+HS_FN void hs_take(const TopologyKernel &m, HSnap &s) {
+  s.overflow = false;
+  s.nV = (int)m.n_vertices(); s.nE = (int)m.n_edges(); s.nF = (int)m.n_faces(); s.nC = (int)m.n_cells();
+  if (s.nV > HXV || s.nE > HXE || s.nF > HXF || s.nC > HXC) { s.overflow = true; return; }
+  for (int i = 0; i < s.nV; ++i) s.vdel[i] = m.is_deleted(VH(i));
+  for (int i = 0; i < s.nE; ++i) { s.efrom[i] = m.edge(EH(i)).from_vertex().idx(); s.eto[i] = m.edge(EH(i)).to_vertex().idx(); s.edel[i] = m.is_deleted(EH(i)); }
+  hs_take_faces(m, s);
+  if (s.overflow) return;
+  hs_take_cells(m, s);
+  if (s.overflow) return;
+  for (int h = 0; h < 2 * s.nF; ++h) s.inc[h] = hs_incident_cell_scan(s, h);
 }
 
 // All helpers below have constant loop bounds with guards, so they may be called with symbolic indices.
@@ -48,55 +71,46 @@ static inline int hs_hf_he(const HSnap &s, int hfh, int k) {
   int f = hfh >> 1, n = s.fval[f];
   return (hfh & 1) ? (s.fhe[f][n - 1 - k] ^ 1) : s.fhe[f][k];
 }
-static inline bool hs_hf_has_he(const HSnap &s, int hfh, int he) {
+HS_FN bool hs_hf_has_he(const HSnap &s, int hfh, int he) {
   int f = hfh >> 1; bool r = false;
   int want = (hfh & 1) ? (he ^ 1) : he;
   for (int k = 0; k < HXFV; ++k) if (k < s.fval[f] && s.fhe[f][k] == want) r = true;
   return r;
 }
-static inline bool hs_face_has_edge(const HSnap &s, int f, int e) {
+HS_FN bool hs_face_has_edge(const HSnap &s, int f, int e) {
   bool r = false;
   for (int k = 0; k < HXFV; ++k) if (k < s.fval[f] && (s.fhe[f][k] >> 1) == e) r = true;
   return r;
 }
-static inline bool hs_face_has_vertex(const HSnap &s, int f, int v) {
+HS_FN bool hs_face_has_vertex(const HSnap &s, int f, int v) {
   bool r = false;
   for (int k = 0; k < HXFV; ++k) if (k < s.fval[f]) { int e = s.fhe[f][k] >> 1; if (s.efrom[e] == v || s.eto[e] == v) r = true; }
   return r;
 }
-static inline bool hs_faces_share_vertex(const HSnap &s, int f, int g) {
+HS_FN bool hs_faces_share_vertex(const HSnap &s, int f, int g) {
   bool r = false;
   for (int k = 0; k < HXFV; ++k) if (k < s.fval[f]) { int e = s.fhe[f][k] >> 1; if (hs_face_has_vertex(s, g, s.efrom[e]) || hs_face_has_vertex(s, g, s.eto[e])) r = true; }
   return r;
 }
-static inline int hs_pos_in_cell(const HSnap &s, int c, int hfh) {   // index of hfh in the cell's list, -1 if absent
-  int r = -1;
-  for (int k = HXCV - 1; k >= 0; --k) if (k < s.cval[c] && s.chf[c][k] == hfh) r = k;
-  return r;
-}
-static inline int hs_incident_cell(const HSnap &s, int hfh) {        // live cell listing hfh; -1 none, -2 several
-  int r = -1;
-  for (int c = 0; c < HXC; ++c) if (c < s.nC && !s.cdel[c] && hs_pos_in_cell(s, c, hfh) >= 0) r = (r == -1) ? c : -2;
-  return r;
-}
+static inline int hs_incident_cell(const HSnap &s, int hfh) { return s.inc[hfh]; }   // live cell listing hfh; -1 none, -2 several
 // the halfface of cell c, other than hfh, that contains the opposite of halfedge he; -1 none, -2 several
-static inline int hs_adj_in_cell(const HSnap &s, int c, int hfh, int he) {
+HS_FN int hs_adj_in_cell(const HSnap &s, int c, int hfh, int he) {
   int r = -1;
   for (int k = 0; k < HXCV; ++k) if (k < s.cval[c] && s.chf[c][k] != hfh && hs_hf_has_he(s, s.chf[c][k], he ^ 1)) r = (r == -1) ? s.chf[c][k] : -2;
   return r;
 }
-static inline bool hs_cell_has_edge(const HSnap &s, int c, int e) {
+HS_FN bool hs_cell_has_edge(const HSnap &s, int c, int e) {
   bool r = false;
   for (int k = 0; k < HXCV; ++k) if (k < s.cval[c] && hs_face_has_edge(s, s.chf[c][k] >> 1, e)) r = true;
   return r;
 }
 // is there a live edge of cell c joining vertices a and b?
-static inline bool hs_cell_edge_between(const HSnap &s, int c, int a, int b) {
+HS_FN bool hs_cell_edge_between(const HSnap &s, int c, int a, int b) {
   bool r = false;
   for (int e = 0; e < HXE; ++e) if (e < s.nE && !s.edel[e] && ((s.efrom[e] == a && s.eto[e] == b) || (s.efrom[e] == b && s.eto[e] == a)) && hs_cell_has_edge(s, c, e)) r = true;
   return r;
 }
-static inline bool hs_boundary_hf(const HSnap &s, int hfh) { return hs_incident_cell(s, hfh) == -1; }
+static inline bool hs_boundary_hf(const HSnap &s, int hfh) { return s.inc[hfh] == -1; }
 
 static inline int hprobe_below(int n) { unsigned x = v_nondet_u32(); v_assume(n > 0 ? x < (unsigned)n : x == 0); return (int)x; }
 
@@ -154,19 +168,23 @@ static void build_hex_base(HexK &m, unsigned b) {
 static const int ORDER_TOP[4] = {2, 4, 3, 5};
 
 // shape: every live face has four edges, every live cell six halffaces
-static void check_shape(const HexK &m, const HSnap &s) {
+HS_FN bool check_shape(const HexK &m, const HSnap &s) {
+  bool ok = true;
   for (int f = 0; f < s.nF; ++f) if (!s.fdel[f]) {
     v_assert(s.fval[f] == 4, "C16 every face of a hexahedral mesh has four halfedges");
     v_assert(m.valence(FH(f)) == 4, "C16 valence(face) == 4");
+    if (s.fval[f] != 4) ok = false;
   }
   for (int c = 0; c < s.nC; ++c) if (!s.cdel[c]) {
     v_assert(s.cval[c] == 6, "C16 every cell of a hexahedral mesh has six halffaces");
     v_assert(m.valence(CH(c)) == 6, "C16 valence(cell) == 6");
+    if (s.cval[c] != 6) ok = false;
   }
+  return ok;
 }
 
 // the XF,XB,YF,YB,ZF,ZB layout of cell c (precondition: shape holds)
-static void check_convention(const HSnap &s, int c) {
+HS_FN void check_convention(const HSnap &s, int c) {
   // halffaces 2k and 2k+1 share no vertex
   for (int k = 0; k < 3; ++k)
     v_assert(!hs_faces_share_vertex(s, s.chf[c][2 * k] >> 1, s.chf[c][2 * k + 1] >> 1), "C16 halffaces 2k and 2k+1 of a cell share no vertex");
@@ -186,43 +204,43 @@ static void check_convention(const HSnap &s, int c) {
 }
 
 // orientation(), opposite_halfface_handle_in_cell, x/y/z front/back, get_oriented_halfface, orthogonal_orientation vs the stored list.
-// Cell enumerated; halfface and orientation constants are free symbolic probes.
+// Cell enumerated; halfface th and orientation constants o, o1, o2 are free symbolic probes.
+HS_FN void check_orientation_cell(const HexK &m, const HSnap &s, int c, int th, unsigned char o, unsigned char o1, unsigned char o2) {
+  CH ch(c);
+  v_assert(m.xfront_halfface(ch).idx() == s.chf[c][0], "C16 xfront_halfface == stored halfface 0");
+  v_assert(m.xback_halfface(ch).idx() == s.chf[c][1], "C16 xback_halfface == stored halfface 1");
+  v_assert(m.yfront_halfface(ch).idx() == s.chf[c][2], "C16 yfront_halfface == stored halfface 2");
+  v_assert(m.yback_halfface(ch).idx() == s.chf[c][3], "C16 yback_halfface == stored halfface 3");
+  v_assert(m.zfront_halfface(ch).idx() == s.chf[c][4], "C16 zfront_halfface == stored halfface 4");
+  v_assert(m.zback_halfface(ch).idx() == s.chf[c][5], "C16 zback_halfface == stored halfface 5");
+  v_assert(m.get_oriented_halfface(o, ch).idx() == (o < 6 ? s.chf[c][o < 6 ? o : 0] : -1), "C16 get_oriented_halfface(o, c) == stored halfface o, invalid for o >= 6");
+  int pos = hs_pos_in_cell(s, c, th);
+  v_assert((int)m.orientation(HFH(th), ch) == (pos >= 0 ? pos : (int)HexK::INVALID), "C16 orientation(hf, c) == position of hf in the cell's list, INVALID if absent");
+  v_assert(m.opposite_halfface_handle_in_cell(HFH(th), ch).idx() == (pos >= 0 ? s.chf[c][(pos >= 0 ? pos : 0) ^ 1] : -1), "C16 opposite_halfface_handle_in_cell == stored halfface at position^1, invalid if hf not in cell");
+  // orthogonal_orientation against the layout: walking around halfface o1's halfedges, the halfface met after o2 is orthogonal_orientation(o1,o2)
+  unsigned char oo = HexK::orthogonal_orientation(o1, o2);
+  if ((o1 >> 1) == (o2 >> 1)) v_assert(oo == HexK::INVALID, "C16 orthogonal_orientation of two orientations on one axis is INVALID");
+  else {
+    int A = s.chf[c][o1], B = s.chf[c][o2];
+    int j = -1;
+    for (int k = 0; k < 4; ++k) if (hs_adj_in_cell(s, c, A, hs_hf_he(s, A, k)) == B) j = k;
+    v_assert(j >= 0, "C16 halffaces on different axes of a cell are adjacent");
+    if (j >= 0) {
+      int C = hs_adj_in_cell(s, c, A, hs_hf_he(s, A, (j + 1) % 4));
+      v_assert(oo < 6 && s.chf[c][oo < 6 ? oo : 0] == C, "C16 orthogonal_orientation(o1,o2) designates the halfface met after o2 when walking around o1 (fixed handedness)");
+    }
+  }
+}
 static void check_orientation_helpers(const HexK &m, const HSnap &s) {
   const int th = hprobe_below(2 * s.nF);
   const unsigned char o = v_nondet_u8();
   const unsigned char o1 = v_nondet_u8(), o2 = v_nondet_u8();
   v_assume(o1 < 6 && o2 < 6);
-  for (int c = 0; c < s.nC; ++c) {
-    if (s.cdel[c]) continue;
-    CH ch(c);
-    v_assert(m.xfront_halfface(ch).idx() == s.chf[c][0], "C16 xfront_halfface == stored halfface 0");
-    v_assert(m.xback_halfface(ch).idx() == s.chf[c][1], "C16 xback_halfface == stored halfface 1");
-    v_assert(m.yfront_halfface(ch).idx() == s.chf[c][2], "C16 yfront_halfface == stored halfface 2");
-    v_assert(m.yback_halfface(ch).idx() == s.chf[c][3], "C16 yback_halfface == stored halfface 3");
-    v_assert(m.zfront_halfface(ch).idx() == s.chf[c][4], "C16 zfront_halfface == stored halfface 4");
-    v_assert(m.zback_halfface(ch).idx() == s.chf[c][5], "C16 zback_halfface == stored halfface 5");
-    v_assert(m.get_oriented_halfface(o, ch).idx() == (o < 6 ? s.chf[c][o] : -1), "C16 get_oriented_halfface(o, c) == stored halfface o, invalid for o >= 6");
-    int pos = hs_pos_in_cell(s, c, th);
-    v_assert((int)m.orientation(HFH(th), ch) == (pos >= 0 ? pos : (int)HexK::INVALID), "C16 orientation(hf, c) == position of hf in the cell's list, INVALID if absent");
-    v_assert(m.opposite_halfface_handle_in_cell(HFH(th), ch).idx() == (pos >= 0 ? s.chf[c][pos ^ 1] : -1), "C16 opposite_halfface_handle_in_cell == stored halfface at position^1, invalid if hf not in cell");
-    // orthogonal_orientation against the layout: walking around halfface o1's halfedges, the halfface met after o2 is orthogonal_orientation(o1,o2)
-    unsigned char oo = HexK::orthogonal_orientation(o1, o2);
-    if ((o1 >> 1) == (o2 >> 1)) v_assert(oo == HexK::INVALID, "C16 orthogonal_orientation of two orientations on one axis is INVALID");
-    else {
-      int A = s.chf[c][o1], B = s.chf[c][o2];
-      int j = -1;
-      for (int k = 0; k < 4; ++k) if (hs_adj_in_cell(s, c, A, hs_hf_he(s, A, k)) == B) j = k;
-      v_assert(j >= 0, "C16 halffaces on different axes of a cell are adjacent");
-      if (j >= 0) {
-        int C = hs_adj_in_cell(s, c, A, hs_hf_he(s, A, (j + 1) % 4));
-        v_assert(oo < 6 && s.chf[c][oo < 6 ? oo : 0] == C, "C16 orthogonal_orientation(o1,o2) designates the halfface met after o2 when walking around o1 (fixed handedness)");
-      }
-    }
-  }
+  for (int c = 0; c < s.nC; ++c) if (!s.cdel[c]) check_orientation_cell(m, s, c, th, o, o1, o2);
 }
 
 // is_boundary helpers on the hexahedral kernel vs brute force (halfface probe symbolic)
-static void check_boundary(const HexK &m, const HSnap &s) {
+HS_FN void check_boundary(const HexK &m, const HSnap &s) {
   const int th = hprobe_below(2 * s.nF);
   if (s.nF > 0 && !s.fdel[th >> 1]) {
     bool b0 = hs_boundary_hf(s, th), b1 = hs_boundary_hf(s, th ^ 1);
@@ -238,7 +256,7 @@ static void check_boundary(const HexK &m, const HSnap &s) {
 
 // one "way" of adjacent_halfface_on_sheet from the stored definitions: R in cell C, S = halfface of C across e,
 // N = cell on the other side of S, result = halfface of N across e from opposite(S).  -1 if any step does not exist.
-static inline int hs_sheet_way(const HSnap &s, int R, int e) {
+HS_FN int hs_sheet_way(const HSnap &s, int R, int e) {
   int C = hs_incident_cell(s, R);
   int r = -1;
   if (C >= 0) {
@@ -254,121 +272,121 @@ static inline int hs_sheet_way(const HSnap &s, int R, int e) {
   return r;
 }
 
-// adjacent_halfface_on_sheet / adjacent_halfface_on_surface / neighboring_outside_halfface; halfface enumerated, its halfedge enumerated
-static void check_navigation(const HexK &m, const HSnap &s) {
-  for (int R = 0; R < 2 * s.nF; ++R) {
-    if (s.fdel[R >> 1]) continue;
-    for (int k = 0; k < 4; ++k) {
-      int e = hs_hf_he(s, R, k);
-      // --- sheet
-      int exp = hs_sheet_way(s, R, e);
-      if (exp < 0) { int t = hs_sheet_way(s, R ^ 1, e ^ 1); exp = t >= 0 ? (t ^ 1) : -1; }
-      v_assert(m.adjacent_halfface_on_sheet(HFH(R), HEH(e)).idx() == exp, "C16 adjacent_halfface_on_sheet == the halfface continuing hf across he on the neighbouring cell (either side), else invalid");
-      // --- surface: some other halfface X around e such that X or opposite(X) is boundary; the boundary one is returned
-      int n_ans = 0, any = -1;
-      int got = m.adjacent_halfface_on_surface(HFH(R), HEH(e)).idx();
-      int got2 = m.neighboring_outside_halfface(HFH(R), HEH(e)).idx();
-      bool got_ok = false, got2_ok = false;
-      for (int X = 0; X < 2 * s.nF; ++X) {
-        if (s.fdel[X >> 1] || X == R || !hs_hf_has_he(s, X, e)) continue;
-        int ans = hs_boundary_hf(s, X) ? X : (hs_boundary_hf(s, X ^ 1) ? (X ^ 1) : -1);
-        if (ans >= 0) { ++n_ans; any = ans; if (ans == got) got_ok = true; if (ans == got2) got2_ok = true; }
-      }
-      if (n_ans == 0) {
-        v_assert(got == -1, "C16 adjacent_halfface_on_surface is invalid when no other face around he has a boundary side");
-        v_assert(got2 == -1, "C16 neighboring_outside_halfface is invalid when no other face around he has a boundary side");
-      } else {
-        v_assert(got_ok, "C16 adjacent_halfface_on_surface returns the boundary halfface of another face around he");
-        v_assert(got2_ok, "C16 neighboring_outside_halfface returns the boundary halfface of another face around he");
-      }
-      (void)any;
-    }
+// adjacent_halfface_on_sheet / adjacent_halfface_on_surface / neighboring_outside_halfface for halfface R and its k-th halfedge
+HS_FN void check_nav_one(const HexK &m, const HSnap &s, int R, int k) {
+  int e = hs_hf_he(s, R, k);
+  // --- sheet
+  int exp = hs_sheet_way(s, R, e);
+  if (exp < 0) { int t = hs_sheet_way(s, R ^ 1, e ^ 1); exp = t >= 0 ? (t ^ 1) : -1; }
+  v_assert(m.adjacent_halfface_on_sheet(HFH(R), HEH(e)).idx() == exp, "C16 adjacent_halfface_on_sheet == the halfface continuing hf across he on the neighbouring cell (either side), else invalid");
+  // --- surface: some other halfface X around e (X contains e) such that X or opposite(X) is boundary; the boundary one is returned
+  int n_ans = 0;
+  int got = m.adjacent_halfface_on_surface(HFH(R), HEH(e)).idx();
+  int got2 = m.neighboring_outside_halfface(HFH(R), HEH(e)).idx();
+  bool got_ok = false, got2_ok = false;
+  for (int f = 0; f < s.nF; ++f) {
+    if (s.fdel[f] || !hs_face_has_edge(s, f, e >> 1)) continue;
+    int X = hs_hf_has_he(s, 2 * f, e) ? 2 * f : 2 * f + 1;     // the side of f that contains e itself
+    if (X == R) continue;
+    int ans = hs_boundary_hf(s, X) ? X : (hs_boundary_hf(s, X ^ 1) ? (X ^ 1) : -1);
+    if (ans >= 0) { ++n_ans; if (ans == got) got_ok = true; if (ans == got2) got2_ok = true; }
   }
+  if (n_ans == 0) {
+    v_assert(got == -1, "C16 adjacent_halfface_on_surface is invalid when no other face around he has a boundary side");
+    v_assert(got2 == -1, "C16 neighboring_outside_halfface is invalid when no other face around he has a boundary side");
+  } else {
+    v_assert(got_ok, "C16 adjacent_halfface_on_surface returns the boundary halfface of another face around he");
+    v_assert(got2_ok, "C16 neighboring_outside_halfface returns the boundary halfface of another face around he");
+  }
+}
+static void check_navigation(const HexK &m, const HSnap &s) {
+#ifdef C16_NAV_SYMBOLIC
+  int R = hprobe_below(2 * s.nF), k = hprobe_below(4);
+  if (s.nF > 0 && !s.fdel[R >> 1]) check_nav_one(m, s, R, k);
+#else
+  for (int R = 0; R < 2 * s.nF; ++R) if (!s.fdel[R >> 1]) { check_nav_one(m, s, R, 0); check_nav_one(m, s, R, 1); check_nav_one(m, s, R, 2); check_nav_one(m, s, R, 3); }
+#endif
 }
 
 // HexVertexIter / hex_vertices: documented cube pattern
-static void check_hex_vertices(const HexK &m, const HSnap &s) {
-  for (int c = 0; c < s.nC; ++c) {
-    if (s.cdel[c]) continue;
-    int hv[9]; int n = 0;
-    for (HexVertexIter it = m.hv_iter(CH(c)); it.valid() && n < 9; ++it) hv[n++] = (*it).idx();
-    v_assert(n == 8, "C16 hv_iter yields exactly eight vertices in one lap");
-    if (n != 8) continue;
-    // the range form yields the same sequence
-    std::pair<HexVertexIter, HexVertexIter> rg = m.hex_vertices(CH(c));
-    int n2 = 0; bool same = true;
-    for (HexVertexIter it = rg.first; it != rg.second && n2 < 9; ++it, ++n2) if (n2 < 8 && (*it).idx() != hv[n2]) same = false;
-    v_assert(n2 == 8 && same, "C16 hex_vertices range == hv_iter sequence");
-    for (int i = 0; i < 8; ++i) for (int j = i + 1; j < 8; ++j) v_assert(hv[i] != hv[j], "C16 hex_vertices are eight distinct vertices");
-    // first four: first halfface's vertices AGAINST its cyclic order, starting at the source of its first halfedge
-    int first = s.chf[c][0], opp = s.chf[c][1];
-    for (int j = 0; j < 4; ++j)
-      v_assert(hv[j] == hs_he_from(s, hs_hf_he(s, first, (4 - j) % 4)), "C16 hex_vertices[0..3] == first halfface's vertices against its order from the first halfedge's source");
-    // last four: the opposite halfface's vertices
-    for (int j = 4; j < 8; ++j) v_assert(hs_face_has_vertex(s, opp >> 1, hv[j]), "C16 hex_vertices[4..7] are vertices of the opposite (second) halfface");
-    // cube pattern: 0-4, 1-7, 2-6, 3-5 joined by edges of the cell
-    v_assert(hs_cell_edge_between(s, c, hv[0], hv[4]), "C16 hex_vertices 0-4 joined by a cell edge");
-    v_assert(hs_cell_edge_between(s, c, hv[1], hv[7]), "C16 hex_vertices 1-7 joined by a cell edge");
-    v_assert(hs_cell_edge_between(s, c, hv[2], hv[6]), "C16 hex_vertices 2-6 joined by a cell edge");
-    v_assert(hs_cell_edge_between(s, c, hv[3], hv[5]), "C16 hex_vertices 3-5 joined by a cell edge");
-  }
+HS_FN void check_hex_vertices_cell(const HexK &m, const HSnap &s, int c) {
+  int hv[9]; int n = 0;
+  for (HexVertexIter it = m.hv_iter(CH(c)); it.valid() && n < 9; ++it) hv[n++] = (*it).idx();
+  v_assert(n == 8, "C16 hv_iter yields exactly eight vertices in one lap");
+  if (n != 8) return;
+  // the range form yields the same sequence
+  std::pair<HexVertexIter, HexVertexIter> rg = m.hex_vertices(CH(c));
+  int n2 = 0; bool same = true;
+  for (HexVertexIter it = rg.first; it != rg.second && n2 < 9; ++it, ++n2) if (n2 < 8 && (*it).idx() != hv[n2]) same = false;
+  v_assert(n2 == 8 && same, "C16 hex_vertices range == hv_iter sequence");
+  bool distinct = true;
+  for (int i = 0; i < 8; ++i) for (int j = i + 1; j < 8; ++j) if (hv[i] == hv[j]) distinct = false;
+  v_assert(distinct, "C16 hex_vertices are eight distinct vertices");
+  // first four: first halfface's vertices AGAINST its cyclic order, starting at the source of its first halfedge
+  int first = s.chf[c][0], opp = s.chf[c][1];
+  for (int j = 0; j < 4; ++j)
+    v_assert(hv[j] == hs_he_from(s, hs_hf_he(s, first, (4 - j) % 4)), "C16 hex_vertices[0..3] == first halfface's vertices against its order from the first halfedge's source");
+  // last four: the opposite halfface's vertices
+  for (int j = 4; j < 8; ++j) v_assert(hs_face_has_vertex(s, opp >> 1, hv[j]), "C16 hex_vertices[4..7] are vertices of the opposite (second) halfface");
+  // cube pattern: 0-4, 1-7, 2-6, 3-5 joined by edges of the cell
+  v_assert(hs_cell_edge_between(s, c, hv[0], hv[4]), "C16 hex_vertices 0-4 joined by a cell edge");
+  v_assert(hs_cell_edge_between(s, c, hv[1], hv[7]), "C16 hex_vertices 1-7 joined by a cell edge");
+  v_assert(hs_cell_edge_between(s, c, hv[2], hv[6]), "C16 hex_vertices 2-6 joined by a cell edge");
+  v_assert(hs_cell_edge_between(s, c, hv[3], hv[5]), "C16 hex_vertices 3-5 joined by a cell edge");
 }
-
-template <class It> static inline int hcount_in(It it, int idx, int limit) {
-  int c = 0, n = 0;
-  for (; it.valid() && n < limit; ++it, ++n) if ((*it).idx() == idx) ++c;
-  return it.valid() ? -1 : c;
+static void check_hex_vertices(const HexK &m, const HSnap &s) {
+  for (int c = 0; c < s.nC; ++c) if (!s.cdel[c]) check_hex_vertices_cell(m, s, c);
 }
 
 // sheet circulators; centre and direction enumerated (the constructors sort), target symbolic
+HS_FN void check_csc_one(const HexK &m, const HSnap &s, int c, int d, int tc) {
+  // neighbours across the four halffaces whose orientation is neither d nor opposite(d)
+  int exp = 0;
+  for (int k = 0; k < 6; ++k) if ((k >> 1) != (d >> 1) && hs_incident_cell(s, s.chf[c][k] ^ 1) == tc) exp = 1;
+  CellSheetCellIter it = m.csc_iter(CH(c), (unsigned char)d);
+  int cnt = 0, n = 0;
+  for (; it.valid() && n < 8; ++it, ++n) if ((*it).idx() == tc) ++cnt;
+  v_assert(!it.valid(), "C16 cell_sheet_cells terminates");
+  v_assert(cnt == exp, "C16 cell_sheet_cells(c,d) == set of cells across the four halffaces not on axis d");
+}
+HS_FN void check_hfshf_one(const HexK &m, const HSnap &s, int R, int thf) {
+  int C = hs_incident_cell(s, R);
+  if (C < 0) { v_assert(!m.hfshf_iter(HFH(R)).valid(), "C16 halfface_sheet_halffaces of a boundary halfface is empty"); return; }
+  int d = hs_pos_in_cell(s, C, R);
+  // matching halffaces: halffaces of the sheet neighbours (across the four halffaces not on R's axis) that continue R across one of its
+  // edges, i.e. contain a halfedge of opposite(R)
+  int exp = 0; bool nb = false;
+  int N = hs_incident_cell(s, thf);
+  for (int k = 0; k < 6; ++k) if ((k >> 1) != (d >> 1) && N >= 0 && hs_incident_cell(s, s.chf[C][k] ^ 1) == N) nb = true;
+  if (nb) { bool touches = false; for (int k = 0; k < 4; ++k) if (hs_hf_has_he(s, thf, hs_hf_he(s, R ^ 1, k))) touches = true; if (touches) exp = 1; }
+  HalfFaceSheetHalfFaceIter it = m.hfshf_iter(HFH(R));
+  int cnt = 0, n = 0; bool edges_ok = true;
+  for (; it.valid() && n < 8; ++it, ++n) {
+    if ((*it).idx() == thf) ++cnt;
+    int ce = it.common_edge().idx();
+    if (!(ce >= 0 && ce < s.nE && hs_face_has_edge(s, R >> 1, ce) && hs_face_has_edge(s, (*it).idx() >> 1, ce))) edges_ok = false;
+  }
+  v_assert(!it.valid(), "C16 halfface_sheet_halffaces terminates");
+  v_assert(cnt == exp, "C16 halfface_sheet_halffaces(hf) == the matching halffaces of the sheet neighbours");
+  v_assert(edges_ok, "C16 common_edge() is an edge of both the reference and the current halfface");
+}
 static void check_sheet_iters(const HexK &m, const HSnap &s) {
   const int tc = hprobe_below(s.nC), thf = hprobe_below(2 * s.nF);
-  for (int c = 0; c < s.nC; ++c) {
-    if (s.cdel[c]) continue;
-    for (int d = 0; d < 6; ++d) {
-      // neighbours across the four halffaces whose orientation is neither d nor opposite(d)
-      int exp = 0;
-      for (int k = 0; k < 6; ++k) if ((k >> 1) != (d >> 1) && hs_incident_cell(s, s.chf[c][k] ^ 1) == tc) exp = 1;
-      v_assert(hcount_in(m.csc_iter(CH(c), (unsigned char)d), tc, 8) == exp, "C16 cell_sheet_cells(c,d) == set of cells across the four halffaces not on axis d");
-    }
-  }
-  for (int R = 0; R < 2 * s.nF; ++R) {
-    if (s.fdel[R >> 1]) continue;
-    int C = hs_incident_cell(s, R);
-    if (C < 0) { v_assert(!m.hfshf_iter(HFH(R)).valid(), "C16 halfface_sheet_halffaces of a boundary halfface is empty"); continue; }
-    int d = hs_pos_in_cell(s, C, R);
-    // matching halffaces: halffaces of the sheet neighbours (across the four halffaces not on R's axis) that continue R across one of its edges,
-    // i.e. contain a halfedge of opposite(R)
-    int exp = 0; bool nb = false;
-    int N = hs_incident_cell(s, thf);
-    for (int k = 0; k < 6; ++k) if ((k >> 1) != (d >> 1) && N >= 0 && hs_incident_cell(s, s.chf[C][k] ^ 1) == N) nb = true;
-    if (nb) { bool touches = false; for (int k = 0; k < 4; ++k) if (hs_hf_has_he(s, thf, hs_hf_he(s, R ^ 1, k))) touches = true; if (touches) exp = 1; }
-    HalfFaceSheetHalfFaceIter it = m.hfshf_iter(HFH(R));
-    int cnt = 0, n = 0; bool edges_ok = true;
-    for (; it.valid() && n < 8; ++it, ++n) {
-      if ((*it).idx() == thf) ++cnt;
-      int ce = it.common_edge().idx();
-      if (!(ce >= 0 && ce < s.nE && hs_face_has_edge(s, R >> 1, ce) && hs_face_has_edge(s, (*it).idx() >> 1, ce))) edges_ok = false;
-    }
-    v_assert(!it.valid(), "C16 halfface_sheet_halffaces terminates");
-    v_assert(cnt == exp, "C16 halfface_sheet_halffaces(hf) == the matching halffaces of the sheet neighbours");
-    v_assert(edges_ok, "C16 common_edge() is an edge of both the reference and the current halfface");
-  }
+  for (int c = 0; c < s.nC; ++c) if (!s.cdel[c]) for (int d = 0; d < 6; ++d) check_csc_one(m, s, c, d, tc);
+  for (int R = 0; R < 2 * s.nF; ++R) if (!s.fdel[R >> 1]) check_hfshf_one(m, s, R, thf);
 }
 
-static void check_hex_all(const HexK &m) {
+// parts: bit0 convention, bit1 orientation helpers, bit2 boundary, bit3 navigation, bit4 hex_vertices, bit5 sheet circulators
+enum { P_CONV = 1, P_ORI = 2, P_BND = 4, P_NAV = 8, P_HV = 16, P_SHEET = 32, P_ALL = 63 };
+static void check_hex_all(const HexK &m, unsigned parts = P_ALL) {
   HSnap s; hs_take(m, s);
   v_assert(!s.overflow, "C16 harness snapshot capacity");
   if (s.overflow) return;
-  check_shape(m, s);
-  bool shape_ok = true;
-  for (int f = 0; f < s.nF; ++f) if (!s.fdel[f] && s.fval[f] != 4) shape_ok = false;
-  for (int c = 0; c < s.nC; ++c) if (!s.cdel[c] && s.cval[c] != 6) shape_ok = false;
-  if (!shape_ok) return;
-  for (int c = 0; c < s.nC; ++c) if (!s.cdel[c]) check_convention(s, c);
-  check_orientation_helpers(m, s);
-  check_boundary(m, s);
-  check_navigation(m, s);
-  check_hex_vertices(m, s);
-  check_sheet_iters(m, s);
+  if (!check_shape(m, s)) return;
+  if (parts & P_CONV) for (int c = 0; c < s.nC; ++c) if (!s.cdel[c]) check_convention(s, c);
+  if (parts & P_ORI) check_orientation_helpers(m, s);
+  if (parts & P_BND) check_boundary(m, s);
+  if (parts & P_NAV) check_navigation(m, s);
+  if (parts & P_HV) check_hex_vertices(m, s);
+  if (parts & P_SHEET) check_sheet_iters(m, s);
 }
